@@ -74,6 +74,8 @@ def gen_poly(rng, max_rows=4, max_cols=4, allow_int16=True, small=False, narrow=
         case["subclass_vars"] = True       # column variables are instances of a subclass of puan.variable
     if rng.random() < 0.5:
         case["dtype_int"] = True
+    if rng.random() < 0.12:
+        case["dtype_with_bounds"] = True
     if rng.random() < 0.1:
         case["numpy_bounds"] = True        # the bounds of every variable are narrow numpy integers (e.g. columns of an int8/int16 table)
     if rng.random() < 0.15:
@@ -98,11 +100,19 @@ def build_poly(case, cls=None):
             return Item(i, bounds=tuple(b))
         if tuple(b) == (-32768, 32767) and case.get("dtype_int"):
             return puan.variable(i, dtype="int")            # the library's own way of declaring an integer variable
+        if case.get("dtype_with_bounds") and tuple(b) != (0, 1):
+            return puan.variable(i, bounds=tuple(b), dtype="int")       # explicit bounds together with the declared dtype: the bounds are the given ones
         if case.get("numpy_bounds"):
             t = numpy.int8 if -128 <= b[0] and b[1] <= 127 else numpy.int16
             return puan.variable(i, bounds=(t(b[0]), t(b[1])))
         return puan.variable(i, bounds=tuple(b))
     variables = [first] + [mk(i, b) for i, b in zip(case["ids"], case["bounds"])]
+    from .. import monitor as _m
+    if _m.CTX is not None:
+        # the columns carry the bounds they were declared with (an oracle reading the box back from the object would agree with anything stored)
+        bad = {str(i): [list(b), [int(v.bounds.lower), int(v.bounds.upper)]] for i, b, v in zip(case["ids"], case["bounds"], variables[1:])
+               if (int(v.bounds.lower), int(v.bounds.upper)) != (int(b[0]), int(b[1]))}
+        _m.CTX.check(not bad, "column-bounds-as-declared", lambda: {"declared_vs_stored": bad})
     kw = {}
     if cls is None and case.get("config"):
         kw["default_prio_vector"] = numpy.array(case["config"])
